@@ -153,6 +153,27 @@ func sandbox(ctx *core.Ctx, bin string) {
 			ctx.Distinct("probe|" + variant + "|" + name)
 		}
 	}
+	// (3c) the documented library tables are not a side channel between calls
+	for _, t := range [][3]string{
+		{`tile38.saved = ARGV return 1`, `return tostring(tile38.saved and tile38.saved[1])`, "nil"},
+		{`string.saved = KEYS return 1`, `return tostring(string.saved and string.saved[1])`, "nil"},
+		{`json.x = 1 return 1`, `return tostring(json.x)`, "nil"},
+		{`math.pi = 3 return 1`, `return tostring(math.pi == 3)`, "false"},
+	} {
+		rep, err := c.Do("EVAL", t[0], "1", "secretkey", "secretarg")
+		if err != nil {
+			ctx.Inconclusive("i/o: " + err.Error())
+			return
+		}
+		ctx.Eval(1)
+		chk, _ := c.Do("EVAL", t[1], "0")
+		if chk.Str != t[2] {
+			ctx.Violation("sandbox:library-table-writable", fmt.Sprintf("script %q (reply %s) changed a documented library table for later calls on the pooled state: %q now answers %q", t[0], rep.String(), t[1], chk.Str), map[string]any{"script": t[0], "probe": t[1]})
+			break
+		}
+		ctx.Distinct("libtable|" + t[0])
+	}
+	c.Do("EVAL", `tile38.saved = nil string.saved = nil json.x = nil math.pi = 3.141592653589793 return 1`, "0")
 	// (3) new globals cannot be created
 	for _, src := range []string{`x = 1; return 1`, `_G.x2 = 1; return 1`, `_G["x3"] = 1; return 1`, `local t = _G; t.x4 = 1; return 1`, `tile38 = nil; return 1`} {
 		rep, err := c.Do("EVAL", src, "0")
@@ -370,6 +391,49 @@ func readOnly(ctx *core.Ctx, bin string) {
 	}
 	ctx.Count("hostile_ro_scripts", int64(len(scripts)))
 	ctx.Sample(map[string]any{"hostile_readonly_script": scripts[2], "variants": "EVALRO, EVALROSHA"})
+	// WHEREEVAL clauses run on pooled interpreter states: whatever script used the state before,
+	// a clause of a read command (also one nested in an EVALRO script) must not be able to write
+	setz := `tile38.call('set','ro','wz','point',2,2)`
+	for _, prev := range [][]string{{"EVAL", "return 1", "0"}, {"EVALNA", "return 1", "0"}, {"EVALSHA", "", "0"}, {"EVAL", "error('x')", "0"}} {
+		if prev[0] == "EVALSHA" {
+			lr, err := c.Do("SCRIPT", "LOAD", "return 1")
+			if err != nil || lr.IsErr() {
+				continue
+			}
+			prev[1] = lr.Str
+		}
+		for _, reader := range [][]string{
+			{"SCAN", "ro", "WHEREEVAL", "return " + setz + " ~= nil", "0", "IDS"},
+			{"SCAN", "ro", "WHEREEVAL", "return tile38.pcall('del','ro','keep') ~= nil", "0", "IDS"},
+			{"NEARBY", "ro", "WHEREEVAL", "tile38.pcall('fset','ro','keep','f','77') return true", "0", "IDS", "POINT", "5", "5"},
+			{"EVALRO", `return tile38.call('scan','ro','WHEREEVAL',"tile38.call('set','ro','fromro','point',2,2) return true",0,'IDS')`, "0"},
+		} {
+			c.Do(prev...)
+			rep, err := c.Do(reader...)
+			if err != nil {
+				ctx.Inconclusive("i/o: " + err.Error())
+				return
+			}
+			ctx.Eval(1)
+			after, err := dump.Take(s.Addr(), dump.Opts{})
+			if err != nil {
+				ctx.Inconclusive(err.Error())
+				return
+			}
+			time.Sleep(5 * time.Millisecond)
+			size1 := aofSize()
+			if d := dump.Diff(before, after); d != "" || size1 != size0 {
+				key := "whereeval-modifies-data"
+				if reader[0] == "EVALRO" {
+					key = "evalro-modifies-data:nested-whereeval"
+				}
+				ctx.Violation(key, fmt.Sprintf("after %q, the read command %q (reply %s) changed the dataset or the log (log %d -> %d bytes): %s", prev, reader, rep.String(), size0, size1, d), map[string]any{"previous_call": prev, "read_command": reader})
+				before = after
+				size0 = size1
+			}
+			ctx.Distinct("whereeval-write|" + prev[0] + "|" + reader[0] + "|" + classify(reader[len(reader)-2]))
+		}
+	}
 }
 
 // ---------------------------------------------------------------- script writes are logged
